@@ -296,11 +296,12 @@ static bool inclSel(const Aut& A, const Aut& B, bool down, bool rec, bool opt, b
 	return Aut::CheckInclusion(sm, bg, ip);
 }
 
-static Observation observeOps(const Aut& A, const Aut& B, CaseAlphabet& ca, bool withCompl)
+static Observation observeOps(const Aut& A, const Aut& B, CaseAlphabet& ca, bool withCompl, bool light, bool heavy)
 {
 	Observation o;
 	static const bool S[8][4] = {{0,0,0,0},{0,0,0,1},{1,0,0,0},{1,0,0,1},{1,1,0,0},{1,1,0,1},{1,1,1,0},{1,1,1,1}};
-	for (auto& s : S) o.verdicts.push_back(inclSel(A, B, s[0], s[1], s[2], s[3]) ? 1 : 0);
+	// downward selections have a heavy-tailed running time: without simulation only on light pairs, none on heavy ones
+	for (auto& s : S) { if (s[0] && ((!s[3] && !light) || heavy)) { o.verdicts.push_back(-1); continue; } o.verdicts.push_back(inclSel(A, B, s[0], s[1], s[2], s[3]) ? 1 : 0); }
 	o.emptyA = A.IsLangEmpty();
 	o.unreach = readExpl(A.RemoveUnreachableStates(), &ca); o.unreachS = o.unreach.states().size(); o.unreachR = o.unreach.rules.size();
 	o.useless = readExpl(A.RemoveUselessStates(), &ca); o.uselessS = o.useless.states().size(); o.uselessR = o.useless.rules.size();
@@ -336,16 +337,17 @@ static void caseC11det(vh::Rng& g)
 	if (a.states().size() > 6 || b.states().size() > 6) { al = gen::randAlpha(g); a = gen::randProductiveTA(g, al, gen::numbering(g, 4, 0), 7); b = gen::randProductiveTA(g, al, gen::numbering(g, 4, 0), 8); }
 	R->desc("determinism\n" + rm::toTimbuk(a, al, "A") + rm::toTimbuk(b, al, "B"));
 	bool withCompl = a.states().size() <= 4;
+	bool light = a.states().size() <= 6 && b.states().size() <= 6 && gen::maxTuples(b) <= 9, heavy = gen::maxTuples(b) > 12;
 	try
 	{
 		CaseAlphabet ca(al); Aut A = mkExpl(a, ca), B = mkExpl(b, ca);
-		R->phase("observe 1"); Observation o1 = observeOps(A, B, ca, withCompl);
+		R->phase("observe 1"); Observation o1 = observeOps(A, B, ca, withCompl, light, heavy);
 		R->phase("noise"); noise(g);
-		R->phase("observe 2 (same objects)"); Observation o2 = observeOps(A, B, ca, withCompl);
+		R->phase("observe 2 (same objects)"); Observation o2 = observeOps(A, B, ca, withCompl, light, heavy);
 		// equal operands built afresh, rules inserted in another order
 		std::vector<RRule> ra(a.rules.begin(), a.rules.end()), rb(b.rules.begin(), b.rules.end()); std::shuffle(ra.begin(), ra.end(), g); std::shuffle(rb.begin(), rb.end(), g);
 		Aut A2 = mkExpl(a, ca, &ra), B2 = mkExpl(b, ca, &rb);
-		R->phase("observe 3 (rebuilt operands)"); Observation o3 = observeOps(A2, B2, ca, withCompl);
+		R->phase("observe 3 (rebuilt operands)"); Observation o3 = observeOps(A2, B2, ca, withCompl, light, heavy);
 		R->count("determinism-cases");
 		auto cmp = [&](const Observation& x, const Observation& y, const char* what) {
 			if (x.verdicts != y.verdicts) { R->violation(std::string("C11/determinism/") + what + "/inclusion-verdict", "verdict vector differs after unrelated activity"); return; }
@@ -371,7 +373,7 @@ int main(int argc, char** argv)
 	if (run.prop == "C11") fn = caseC11; else if (run.prop == "C12") fn = caseC12;
 	else { fprintf(stderr, "mon_hist: unknown property %s\n", run.prop.c_str()); return 2; }
 	uint64_t idx;
-	while (run.next(idx)) { vh::Rng g = run.rng(idx); fn(idx, g); }
+	while (run.next(idx)) { vh::Rng g = run.rng(idx); vu::insertionRng() = &g; fn(idx, g); }
 #ifdef LIBVATA_VERIF
 	for (int i = 0; i < VATA::Verif::NUM_COUNTERS; ++i) if (VATA::Verif::Counters()[i]) run.count(std::string("reach:") + VATA::Verif::CounterName(i), static_cast<long>(VATA::Verif::Counters()[i]));
 #endif
